@@ -341,6 +341,8 @@ func (b *binder) requiresFn(ft reflect.Type, tm *typeModel, which string) func([
 			}
 			if o, ok := fr["own"].(map[string]any); ok {
 				own, _ = canonLeaf(o["id"])
+				t, _ := o["tier"].(string)
+				own += "/" + t
 			}
 			if fr == nil {
 				key = "<no representation>"
@@ -356,6 +358,11 @@ func (b *binder) requiresFn(ft reflect.Type, tm *typeModel, which string) func([
 			ov := fieldByJSON(obj, "own")
 			if ov.Kind() == reflect.Ptr && !ov.IsNil() {
 				own = canonGo(fieldByJSON(ov.Elem(), "id"))
+				if tv := fieldByJSON(ov.Elem(), "tier"); tv.IsValid() && tv.Kind() == reflect.Ptr && !tv.IsNil() {
+					own += "/" + tv.Elem().String()
+				} else {
+					own += "/"
+				}
 			}
 		}
 		s := "B|" + key + "|" + ext + "|" + num
